@@ -620,3 +620,87 @@ def mutable_class_attr(check: Check, mods: Iterable[Module], rule: str = "MUTABL
                      "no shared mutable container" if not bad else "; ".join(f"`{nm} = {unparse(v)}` is one object for all instances" for nm, v in bad),
                      nontrivial=bool(bad))
     return n
+
+
+# --------------------------------------------------------------------------- #
+# DISPATCH-LOOP-BREAK
+
+
+def dispatch_loop_breaks(fn: ast.AST) -> list[tuple[ast.For, ast.Break, str]]:
+    """`break` in one isinstance-arm of a for loop whose other arm collects elements."""
+    out = []
+    for loop in walk_body(fn):
+        if not isinstance(loop, ast.For) or not isinstance(loop.target, ast.Name):
+            continue
+        var = loop.target.id
+        # the if/elif chain on the class of the loop variable, directly in the loop body
+        chains = [s for s in loop.body if isinstance(s, ast.If) and f"isinstance({var}," in unparse(s.test)]
+        for chain in chains:
+            arms: list[list[ast.stmt]] = []
+            cur: ast.If | None = chain
+            while cur is not None:
+                arms.append(cur.body)
+                nxt = cur.orelse
+                if len(nxt) == 1 and isinstance(nxt[0], ast.If):
+                    cur = nxt[0]
+                else:
+                    if nxt:
+                        arms.append(nxt)
+                    cur = None
+            if len(arms) < 2:
+                continue
+
+            def collects(arm: list[ast.stmt]) -> str | None:
+                for s in arm:
+                    for x in ast.walk(s):
+                        if isinstance(x, ast.Assign) and isinstance(x.targets[0], ast.Subscript):
+                            return unparse(x.targets[0].value)
+                        if isinstance(x, ast.Call) and isinstance(x.func, ast.Attribute) and x.func.attr in ("append", "add", "extend"):
+                            return unparse(x.func.value)
+                return None
+
+            for i, arm in enumerate(arms):
+                brs = [b for s in arm for b in ast.walk(s) if isinstance(b, ast.Break) and _owner_loop(b) is loop]
+                if not brs:
+                    continue
+                others = [collects(a) for j, a in enumerate(arms) if j != i]
+                others = [o for o in others if o]
+                if others:
+                    out.append((loop, brs[0], others[0]))
+    return out
+
+
+def dispatch_loop_break(check: Check, funcs: Iterable[ast.AST], rule: str = "DISPATCH-LOOP-BREAK") -> int:
+    check.rule(
+        rule,
+        "a for loop that dispatches on the class of its elements and *collects* in one arm (fragments into a "
+        "map, definitions into a list) is not left with `break` from another arm: the elements after the "
+        "break never reach the collecting arm (fragments defined after the selected operation would be "
+        "unknown to execution and their spreads silently skipped)",
+    )
+    n = 0
+    for fn in funcs:
+        loops = [l for l in walk_body(fn) if isinstance(l, ast.For) and isinstance(l.target, ast.Name)
+                 and any(isinstance(s, ast.If) and f"isinstance({l.target.id}," in unparse(s.test) for s in l.body)]
+        if not loops:
+            continue
+        bad = dispatch_loop_breaks(fn)
+        n += 1
+        check.ob(rule, fn, f"{getattr(fn, 'name', '?')}: class-dispatching loop(s) run to the end", not bad,
+                 f"{len(loops)} loop(s), no break out of an arm" if not bad else
+                 f"`break` at line {bad[0][1].lineno} leaves the loop although another arm collects into `{bad[0][2]}`")
+    fx = fixture("generic_controls")
+    check.control(f"{rule}:bad", bool(dispatch_loop_breaks(fx.get("dispatch_break_bad"))), True)
+    check.control(f"{rule}:ok", bool(dispatch_loop_breaks(fx.get("dispatch_break_ok"))), False)
+    return n
+
+
+def _owner_loop(node: ast.AST) -> ast.AST | None:
+    p = parent(node)
+    while p is not None:
+        if isinstance(p, (ast.While, ast.For, ast.AsyncFor)):
+            return p
+        if isinstance(p, (*FuncDef, ast.Lambda)):
+            return None
+        p = parent(p)
+    return None
